@@ -82,6 +82,37 @@ func init() {
 		st.assume(Implies(Eq(e, IntLit(0)), Eq(id, st.uuidParse(s))))
 		return &TupleV{[]SVal{id, e}}, true
 	})
+	// time.Duration text form: String and ParseDuration are exact inverses (assumed of package time)
+	reg("(time.Duration).String", nil, func(st *State, fr *Frame, call ssa.CallInstruction, a []SVal) (SVal, bool) {
+		return st.durStr(st.scalar(a[0])), true
+	})
+	reg("time.ParseDuration", nil, func(st *State, fr *Frame, call ssa.CallInstruction, a []SVal) (SVal, bool) {
+		s := st.scalar(a[0])
+		st.durStr(IntLit(0)) // declares the functions and the inverse axiom
+		d := st.fresh("parseddur", SInt)
+		e := st.newErrOrNil("durerr")
+		st.assume(Eq(Eq(e, IntLit(0)), App(SBool, "spec.dur_parses", s)))
+		st.assume(Implies(Eq(e, IntLit(0)), Eq(d, App(SInt, "spec.dur_parse", s))))
+		return &TupleV{[]SVal{d, e}}, true
+	})
+	// regular expressions: matching is an uninterpreted predicate of (regexp, text); the submatch slice is nil
+	// exactly when there is no match and has one entry per group otherwise
+	reg("(*regexp.Regexp).FindStringSubmatch", nil, func(st *State, fr *Frame, call ssa.CallInstruction, a []SVal) (SVal, bool) {
+		re, s := st.scalar(a[0]), st.scalar(a[1])
+		m := st.reMatches(re, s)
+		sv := st.freshVal("submatch", call.Common().Signature().Results().At(0).Type()).(*SliceV)
+		ng := App(SInt, st.declareFun("spec.re_groups", []Sort{SInt}, SInt), re)
+		st.assume(Ge(ng, IntLit(0)))
+		st.assume(Ite(m, And(Neq(sv.Base, IntLit(0)), Eq(sv.Len, Add(ng, IntLit(1))), Ge(sv.Cap, sv.Len)), And(Eq(sv.Base, IntLit(0)), Eq(sv.Len, IntLit(0)), Eq(sv.Cap, IntLit(0)))))
+		return sv, true
+	})
+	reg("(*regexp.Regexp).SubexpIndex", nil, func(st *State, fr *Frame, call ssa.CallInstruction, a []SVal) (SVal, bool) {
+		re, name := st.scalar(a[0]), st.scalar(a[1])
+		ng := App(SInt, st.declareFun("spec.re_groups", []Sort{SInt}, SInt), re)
+		r := App(SInt, st.declareFun("spec.re_subexp", []Sort{SInt, SStr}, SInt), re, name)
+		st.assume(And(Ge(r, IntLit(-1)), Le(r, ng)))
+		return r, true
+	})
 	reg("sort.Slice", []string{"E:*"}, func(st *State, fr *Frame, call ssa.CallInstruction, a []SVal) (SVal, bool) {
 		return st.sortSlice(a[0]), true
 	})
@@ -207,6 +238,29 @@ func (st *State) powReal(x, y *Term) *Term {
 	r := App(SReal, f, x, y)
 	st.assume(Implies(Gt(x, RealLit(0)), Gt(r, RealLit(0))))
 	return r
+}
+
+func (st *State) durStr(d *Term) *Term {
+	f := st.declareFun("spec.dur_str", []Sort{SInt}, SStr)
+	g := st.declareFun("spec.dur_parse", []Sort{SStr}, SInt)
+	ok := st.declareFun("spec.dur_parses", []Sort{SStr}, SBool)
+	if !st.declared["axiom:dur_str"] {
+		st.declared["axiom:dur_str"] = true
+		x := Const("x!qdur", SInt)
+		st.assume(Forall([]*Term{x}, And(App(SBool, ok, App(SStr, f, x)), Eq(App(SInt, g, App(SStr, f, x)), x)), App(SStr, f, x)))
+	}
+	return App(SStr, f, d)
+}
+
+func (st *State) reMatches(re, s *Term) *Term {
+	return App(SBool, st.declareFun("spec.re_matches", []Sort{SInt, SStr}, SBool), re, s)
+}
+
+// newErrOrNil: an error result that may be nil
+func (st *State) newErrOrNil(prefix string) *Term {
+	e := st.fresh(prefix, SInt)
+	st.assume(And(Ge(e, IntLit(0)), Lt(e, IntLit(900000000))))
+	return e
 }
 
 func (st *State) uuidStr(id *Term) *Term {
@@ -416,6 +470,28 @@ func (st *State) specBuiltin(env *Env, e *Expr) (SVal, types.Type, bool) {
 		}
 		b, _ := st.elab(env, e.Args[1])
 		return Select(pos, st.scalar(b)), tInt, true
+	case "durstr":
+		a, _ := st.elab(env, e.Args[0])
+		return st.durStr(st.scalar(a)), tString, true
+	case "durparses":
+		a, _ := st.elab(env, e.Args[0])
+		st.durStr(IntLit(0))
+		return App(SBool, "spec.dur_parses", st.scalar(a)), tBool, true
+	case "rematch":
+		a, _ := st.elab(env, e.Args[0])
+		b, _ := st.elab(env, e.Args[1])
+		return st.reMatches(st.scalar(a), st.scalar(b)), tBool, true
+	case "asstring":
+		a, _ := st.elab(env, e.Args[0])
+		iv, ok := a.(*IfaceV)
+		if !ok {
+			st.unsupported("asstring of a non-interface value")
+		}
+		if cs, ok := iv.CVal.(*Term); ok && cs.Sort == SStr {
+			return cs, tString, true
+		}
+		v := st.load(st.view(env), &AddrV{Kind: "box", Base: iv.Val, Key: "B|string", Type: tString})
+		return st.scalar(v), tString, true
 	case "uuidstr":
 		a, _ := st.elab(env, e.Args[0])
 		return st.uuidStr(st.scalar(a)), tString, true
